@@ -29,7 +29,8 @@ MANIFEST = {
                 "driver's IEEE instance (Ieee.lean) is only tested.  libc parsers atoi/strtoul/atoll/strtoull are Lean definitions of the "
                 "glibc LP64 behaviour.  `refines` is proved for the variable-level model (elements inside payloads by value) and "
                 "`deep_refines` for the deep model (what the driver runs: nested lazy sharing, destructor cascade), both for all "
-                "operations and all histories; the only hypothesis of `deep_refines` is that literals are null/scalars/strings.  The deep "
+                "operations and all histories; the only hypothesis of `deep_refines` is that literals are null/scalars/strings; the driver's "
+                "read-out fuel `next + 1` is proved sufficient (`deep_read_fuel`) and the driver loop itself is covered (`deep_driver_refines`).  The deep "
                 "model takes an element out of its slot for the time of a nested call and unlinks before it destroys (unobservable "
                 "orderings chosen for the proofs).  Precondition of mutation through an accessor: the source is not the variable being "
                 "accessed (known finding 'self-append', probed on every run).  Reference counts are compared although they are "
